@@ -14,7 +14,8 @@ EXPLANATION = (
     "get_connection re-creates the connection when the cache is empty; (3) the cache mutex is not held across the connect (rule LK1); "
     "(4) tunnels open across the outage end through on_error (C04/C16 clauses re-checked). Bounded time / number of attempts and detection "
     "of silently dropped peers are NOT decided."
-    " callback-kept: ContextRefOps::on_connect reads the listener callback and never takes or replaces it, so later on_error / on_finish still reach the listener's session clean-up.")
+    " callback-kept: ContextRefOps::on_connect reads the listener callback and never takes or replaces it, so later on_error / on_finish still reach the listener's session clean-up."
+    " session-released: terminal callbacks of listeners with a session table remove the client's entry on every path.")
 RULE_TEXT = "instances = connector impls, connector struct fields, cache-invalidation edges"
 TRUSTED = ["quinn reports a dead connection as an error of open_bi()", "TCP connect fails for an unreachable upstream"]
 NOT_DECIDED = ["bounded time and number of attempts to recover", "detection of silently dropped peers (keep-alive 30 s / idle 3600 s are constants the check prints but cannot judge)",
